@@ -55,6 +55,14 @@ macro_rules! arr_refref {
     };
 }
 
+/// An owned vector whose allocation is much larger than its contents (a caller may hand over any
+/// allocation it likes; the library must not let spare capacity change what is stored).
+pub fn roomy<T: Clone>(v: &[T]) -> Vec<T> {
+    let mut t = Vec::with_capacity(v.len() + 4096);
+    t.extend_from_slice(v);
+    t
+}
+
 // ---------------------------------------------------------------------------------------------
 // Terminals
 // ---------------------------------------------------------------------------------------------
@@ -112,6 +120,7 @@ spec!(
         arr_owned!(p, v, u8),
         arr_ref!(p, v, u8),
         arr_refref!(p, v, u8),
+        p.push(roomy(v)),
     ],
     reserve(rp, vs): [
         rp.reserve_items(vs.iter()),
@@ -141,6 +150,7 @@ spec!(
         p.push(PushIter(v.iter().cloned())),
         arr_owned!(p, v, String),
         arr_ref!(p, v, String),
+        p.push(roomy(v)),
     ],
     reserve(rp, vs): [rp.reserve_items(vs.iter()), rp.reserve_items(vs.iter().map(|v| v.as_slice()))],
 );
@@ -206,6 +216,7 @@ spec!(
         p.push(v.clone()),
         p.push(v.as_ref().map(|s| s.as_slice()).map_err(|e| e.as_slice())),
         p.push(v.as_ref()),
+        p.push(v.as_ref().map(|s| roomy(s)).map_err(|e| roomy(e))),
     ],
     reserve(rp, vs): [rp.reserve_items(vs.iter()), rp.reserve_items(vs.iter().map(|v| v.as_ref()))],
 );
@@ -400,6 +411,7 @@ spec!(
         p.push(PushIter(v.iter().copied())),
         arr_owned!(p, v, u8),
         arr_ref!(p, v, u8),
+        p.push(roomy(v)),
     ],
     reserve(rp, vs): [rp.reserve_items(vs.iter()), rp.reserve_items(vs.iter().map(|v| v.as_slice()))],
 );
@@ -481,6 +493,7 @@ spec!(
         p.push(v.as_slice()),
         p.push(PushIter(v.iter())),
         p.push(v.iter().map(|c| c.as_slice()).collect::<Vec<&[u8]>>()),
+        p.push(v.iter().map(|c| roomy(c)).collect::<Vec<Vec<u8>>>()),
     ],
     reserve(rp, vs): [],
 );
@@ -648,4 +661,35 @@ spec!(
     byref(x): x,
     forms(p, v): [p.push(v), p.push(v.clone()), p.push(v.as_slice()), p.push(v.iter().map(|s| s.as_str()).collect::<Vec<&str>>())],
     reserve(rp, vs): [],
+);
+
+// ---------------------------------------------------------------------------------------------
+// `Vec<T>` as a region, nested (reserve_items reaches it through filter_map / flatten adaptors)
+// ---------------------------------------------------------------------------------------------
+
+spec!(
+    OptVecU32, "OptionRegion<Vec<u32>>", OptionRegion<Vec<u32>>,
+    clone: yes, serde: yes, heap: yes, resreg: yes, copy: yes, debug: yes,
+    dense: no, collapse_top: no, presize: yes, plain: yes,
+    byref(x): x,
+    forms(p, v): [p.push(v), p.push(*v), p.push(v.as_ref())],
+    reserve(rp, vs): [rp.reserve_items(vs.iter()), rp.reserve_items(vs.iter().copied())],
+);
+
+spec!(
+    ResVecVec, "ResultRegion<Vec<u32>,Vec<String>>", ResultRegion<Vec<u32>, Vec<String>>,
+    clone: yes, serde: yes, heap: yes, resreg: yes, copy: yes, debug: yes,
+    dense: no, collapse_top: no, presize: yes, plain: no,
+    byref(x): x,
+    forms(p, v): [p.push(v), p.push(v.clone()), p.push(v.as_ref())],
+    reserve(rp, vs): [rp.reserve_items(vs.iter()), rp.reserve_items(vs.iter().map(|v| v.as_ref()))],
+);
+
+spec!(
+    SliceVecU32, "SliceRegion<Vec<u32>>", SliceRegion<Vec<u32>>,
+    clone: yes, serde: yes, heap: yes, resreg: yes, copy: yes, debug: yes,
+    dense: no, collapse_top: no, presize: yes, plain: yes,
+    byref(x): x,
+    forms(p, v): [p.push(v), p.push(v.clone()), p.push(v.as_slice()), arr_owned!(p, v, u32), arr_ref!(p, v, u32)],
+    reserve(rp, vs): [rp.reserve_items(vs.iter()), rp.reserve_items(vs.iter().map(|v| v.as_slice()))],
 );
